@@ -51,6 +51,37 @@ const VALUES: [&str; 10] = [
     "1234567890",
 ];
 
+/// A header name made of valid HTTP token characters (so that "carried" is well defined).
+fn gen_name(rng: &mut Rng) -> String {
+    if rng.chance(2, 3) {
+        return rng.pick(&NAMES).to_string();
+    }
+    const TCHAR: &[u8] = b"abcdefghijklmnopqrstuvwxyzABCDEFGHIJKLMNOPQRSTUVWXYZ0123456789-_.!#$%&'*+^`|~";
+    let n = rng.range(1, 12);
+    let mut s = String::from("X");
+    for _ in 0..n {
+        s.push(*rng.pick(TCHAR) as char);
+    }
+    s
+}
+
+/// A header value: printable characters incl. every separator a parser might be tempted to split
+/// on, inner blanks, and some non-ASCII text; no control characters, no leading/trailing blanks.
+fn gen_value(rng: &mut Rng) -> String {
+    if rng.chance(1, 3) {
+        return rng.pick(&VALUES).to_string();
+    }
+    const PIECES: [&str; 40] = [
+        "a", "Z", "0", "value", "en", "fr", "q=0.8", ",", ",", ", ", ";", "; ", "=", ":", "::", "\"", "'", "(", ")", "[", "]", "{", "}", "<", ">", "/", "\\", "?", "@", "#", "$", "%", "%20", "&", "*", "+", " ", "\t", "\u{e9}", "\u{2603}",
+    ];
+    let n = rng.range(0, 8);
+    let mut s = String::new();
+    for _ in 0..n {
+        s.push_str(*rng.pick(&PIECES[..]));
+    }
+    s.trim().to_string()
+}
+
 fn gen_header(rng: &mut Rng, allow_refused: bool) -> String {
     if allow_refused && rng.chance(1, 8) {
         let n = *rng.pick(&NAMES);
@@ -64,8 +95,8 @@ fn gen_header(rng: &mut Rng, allow_refused: bool) -> String {
             _ => "NoColonAtAll".to_string(),
         };
     }
-    let n = *rng.pick(&NAMES);
-    let v = *rng.pick(&VALUES);
+    let n = gen_name(rng);
+    let v = gen_value(rng);
     match rng.below(7) {
         0 => format!("{}: {}", n, v),
         1 => format!("{}:{}", n, v),
@@ -113,7 +144,7 @@ pub fn generate(seed: u64, w: &World, with_big: bool) -> Value {
     let allow_refused = rng.chance(1, 3);
     let headers: Vec<String> = (0..nheaders).map(|_| gen_header(&mut rng, allow_refused)).collect();
     let authorization = if rng.chance(1, 3) {
-        Some(*rng.pick(&["abc123", "tok.en-with_chars~", "t0ken with space", "eyJhbGciOiJIUzI1NiJ9.e30.x"]))
+        Some(*rng.pick(&["abc123", "tok.en-with_chars~", "t0ken with space", "eyJhbGciOiJIUzI1NiJ9.e30.x", "a,b", "k=v;x", "Bearer nested", "p@ss:w0rd/+=="]))
     } else {
         None
     };
@@ -122,7 +153,7 @@ pub fn generate(seed: u64, w: &World, with_big: bool) -> Value {
     } else {
         json!(*rng.pick(&["absent", "text", "old-schema", "long-text", "text"]))
     };
-    let path = *rng.pick(&["/graphql", "/", "/api/v1/graphql?x=1&y=two"]);
+    let path = *rng.pick(&["/graphql", "/", "/api/v1/graphql?x=1&y=two", "/graphql/", "/v1/graphql;v=1", "/~user/gql", "/with%20space/graphql", "/graphql?query=%7B%7D&a=b,c"]);
     let usable: Vec<&Fixture> = w.fixtures.iter().filter(|f| !f.big || (with_big && seed % 8 == 0) || seed % 64 == 0).collect();
     let fx = *rng.pick(&usable);
     // what the endpoint has to say
